@@ -10,6 +10,7 @@ VARIANCE = "function::get_variance"
 SUM = "function::get_buffer_sum"
 CHECK_FILE = "searcher::Searcher::check_file"
 GFV = "searcher::Searcher::get_function_value"
+GCEV = "searcher::Searcher::get_column_expr_value"
 
 
 def agg_arms(ctx):
@@ -184,13 +185,51 @@ def r3(ctx):
     ctx.obligation(ok)
     if not ok:
         ctx.violation("buffer/key", ctx.where(GFV), "the aggregated column must be looked up by the text of the aggregate's argument")
-    ctx.covered("aggregation buffer discipline (single writer after the filter; reader; key)", 4, distinct_keys=["writer", "order", "reader", "key"])
+    # the argument of the aggregate is materialised into the row before the row is buffered: in the aggregate branch the
+    # argument expression is evaluated against the row's map, and the evaluator stores function / field / arithmetic
+    # values in that map under the expression's text (the key the aggregate reads)
+    ok = False
+    if len(cs) == 1:
+        ev = [c for c in walk_exprs(gh) if c["k"] == "MCall" and c["m"] == "get_column_expr_value" and len(c["args"]) == 5
+              and render(c["args"][2]) == "file_map" and render(c["args"][4]).startswith("left_expr")]
+        ga = guards_of(gh, cs[0])
+        ok = any([guard_text(g) for g in guards_of(gh, e)] == [guard_text(g) for g in ga] and _before(gh, e, cs[0]) for e in ev)
+    ctx.obligation(ok)
+    if not ok:
+        ctx.violation("buffer/argument-materialised", ctx.where(GFV),
+                      "the argument of an aggregate (e.g. LENGTH(name) in MIN(LENGTH(name))) must be evaluated into the entry's row "
+                      "before the row is buffered; otherwise no buffered row has a value under the aggregate's key")
+    ch = ctx.anchor_hir(GCEV)
+    ins = [c for c in walk_exprs(ch) if c["k"] == "MCall" and c["m"] == "insert" and render(c["recv"]) == "file_map"]
+    keys = {}
+    for c in ins:
+        g = " & ".join(guard_text(x) for x in guards_of(ch, c))
+        kind = "function" if "column_expr.function" in g else "field" if "column_expr.field" in g else "arithmetic" if "arithmetic_op" in g else "?"
+        keys[kind] = render(Locals(ch).chase(c["args"][0]))
+    ok = all(keys.get(k, "").startswith("column_expr.to_string()") for k in ("function", "field", "arithmetic"))
+    ctx.obligation(ok)
+    if not ok:
+        ctx.violation("buffer/write-through", ctx.where(GCEV), "function, column and arithmetic values must be stored in the row under the expression's text; found %s" % keys)
+    ctx.covered("aggregation buffer discipline (single writer after the filter; reader; key; argument materialised; write-through)", 6,
+                distinct_keys=["writer", "order", "reader", "key", "argument", "write-through"])
+
+
+def _before(root, a, b):
+    """a is evaluated before b in a pre-order walk of root (statement order)"""
+    ia = ib = None
+    for i, x in enumerate(walk_exprs(root)):
+        if x is a:
+            ia = i
+        if x is b:
+            ib = i
+    return ia is not None and ib is not None and ia < ib
 
 
 RULES = [
     ("C07-R1", "AVG is computed by real division", r1),
     ("C07-R2", "aggregate -> primitive / divisor / sqrt table; formulas; aggregate set", r2),
     ("C07-R3", "the WHERE filter is applied before aggregation; one buffer row per accepted entry", r3),
+    ("X-BUFFER", "buffering predicates (ordered or aggregate) and recursive expression predicates [shared]", lambda ctx: __import__("extra").buffering_predicates(ctx)),
 ]
 
 EXPLANATION = (
@@ -199,7 +238,8 @@ EXPLANATION = (
     "divides by n (population) or n-1 (sample) and takes a square root exactly for STDDEV; get_variance accumulates "
     "(mean - value)^2 / n; is_aggregate_function, the arms and the documentation agree; the aggregation buffer has "
     "one writer (check_file, after the WHERE filter, outside any loop) and the aggregate reads that buffer keyed by "
-    "the text of its argument. Numeric exactness for large sums, empty-input conventions and rounding are not decided.")
+    "the text of its argument. Numeric exactness for large sums, empty-input conventions and rounding are not decided."
+    " The aggregate's argument is evaluated into the entry's row before the key is read and the evaluator stores function/column/arithmetic values under the expression text.")
 ASSUMPTIONS = ["rustc's HIR/MIR faithfully represent the source; exporter and rule scripts are correct",
                "Iterator::min/max, f64::sqrt/powi as documented"]
 NOT_DECIDED = ["exactness for sums beyond usize/i64, values that do not parse as integers", "empty-input conventions", "floating-point rounding"]
